@@ -76,13 +76,21 @@ func timeGroupAt(b []value, p int) (*smt.Term, bool) {
 	if !ok || tb.I != 0 || p+timeBytesLen > len(b) {
 		return nil, false
 	}
+	inc := false
 	for k := 1; k < timeBytesLen; k++ {
 		x, ok := b[p+k].(TimeByte)
 		if !ok || x.T != tb.T || x.I != k {
 			return nil, false
 		}
+		inc = x.Inc
 	}
-	return tb.T, true
+	// order keys by 2*T (+1 when the last byte was incremented: sorts right after time T)
+	c := tb.T.C
+	t := c.Mul(c.Int64(2), tb.T)
+	if inc {
+		t = c.Add(t, c.Int64(1))
+	}
+	return t, true
 }
 
 // concreteTimeAt parses 29 concrete bytes at b[p:] as a sortable time.
@@ -98,7 +106,8 @@ func (fr *frame) concreteTimeAt(b []value, p int) (*smt.Term, bool) {
 	if err != nil {
 		return nil, false
 	}
-	return fr.ctx().Int(timeToNS(t)), true
+	c := fr.ctx()
+	return c.Mul(c.Int64(2), c.Int(timeToNS(t))), true
 }
 
 func timeToNS(t time.Time) *big.Int {
@@ -337,7 +346,7 @@ func init() {
 		}
 		out := make([]value, timeBytesLen)
 		for k := range out {
-			out[k] = TimeByte{t, k}
+			out[k] = TimeByte{T: t, I: k}
 		}
 		return out
 	})
@@ -354,11 +363,18 @@ func init() {
 	reg(sdkTypes+".ParseTimeBytes", func(fr *frame, a []value) value {
 		b := a[0].([]value)
 		if len(b) == timeBytesLen {
-			if t, ok := timeGroupAt(b, 0); ok {
-				return tuple{TimeV{t}, nilErr()}
+			if tb, ok := b[0].(TimeByte); ok {
+				if _, ok := timeGroupAt(b, 0); ok {
+					if last := b[timeBytesLen-1].(TimeByte); last.Inc {
+						unsupported("ParseTimeBytes of an incremented (prefix-end) time")
+					}
+					return tuple{TimeV{tb.T}, nilErr()}
+				}
 			}
-			if t, ok := fr.concreteTimeAt(b, 0); ok {
-				return tuple{TimeV{t}, nilErr()}
+			if cb, ok := concreteBytes(b); ok {
+				if tm, err := time.Parse(sortableTimeFormat, string(cb)); err == nil {
+					return tuple{TimeV{fr.ctx().Int(timeToNS(tm))}, nilErr()}
+				}
 			}
 		}
 		if _, ok := concreteBytes(b); ok {
